@@ -370,14 +370,22 @@ class TerminalDevice(Device):
                 if vtype == 1:  # INTEGER
                     if not INPUT_INTEGER_RE.fullmatch(v):
                         return False
-                    v = int(v)
+                    try:
+                        v = int(v)
+                    except ValueError:
+                        # more digits than int() converts
+                        return False
                     if v < -32768 or v > 32767:
                         return False
                     cells.append((CellType.INTEGER, v))
                 elif vtype == 2:  # LONG
                     if not INPUT_INTEGER_RE.fullmatch(v):
                         return False
-                    v = int(v)
+                    try:
+                        v = int(v)
+                    except ValueError:
+                        # more digits than int() converts
+                        return False
                     if v < -2**31 or v >= 2**31:
                         return False
                     cells.append((CellType.LONG, v))
